@@ -22,7 +22,8 @@ RULE = ('fault enumeration: first frame x second frame over {2probe, 2, 2x, '
         'never} x peer-closure convention {wait() returns None, wait() raises} '
         'x concurrent activity {none, pending poll, queued send, send during '
         'the handshake, all} x allow_upgrades x transports {both, polling, '
-        'websocket} x server(2); thorough = all cells, quick = seeded sample + '
+        'websocket} x server(2); cells with concurrent activity additionally under '
+        'seeded random cooperative schedules; thorough = all cells, quick = seeded sample + '
         'all cells with default config. distinct = distinct cells; each '
         'evaluates the trace automaton')
 ASSUMPTIONS = ['UPGRADE = any packet of type 5; probe = text frame "2probe"',
@@ -33,7 +34,8 @@ ASSUMPTIONS = ['UPGRADE = any packet of type 5; probe = text frame "2probe"',
                'response)']
 REQUIRED = ['trace_automaton', 'transport_samples', 'retrievable_after_failure',
             'later_upgrade_succeeds', 'second_upgrade_refused',
-            'ws_only_mode', 'disallowed_transport']
+            'ws_only_mode', 'disallowed_transport',
+            'cells_under_random_schedules']
 SHARD_TIMEOUT = {'quick': 400, 'thorough': 3000}
 
 MAXB = 1000
@@ -62,16 +64,23 @@ def is_upgrade(name):
 
 
 def run_cell(rec, cell):
+    sched = 0
+    if len(cell) == 9:
+        sched, cell = cell[8], tuple(cell[:8])
     i1, i2, ic, icv, ico, iau, itr, isrv = cell
     f1, f2, cl = FRAMES[i1], FRAMES[i2], CLOSE_AT[ic]
     conv, conc, au, tr, srv = CONV[icv], CONC[ico], AU[iau], TR[itr], SRV[isrv]
-    case = {'cell': list(cell)}
+    case = {'cell': list(cell) + ([sched] if sched else [])}
     rec.evaluations += 1
-    rec.key('cell/' + ','.join(map(str, cell)))
+    rec.key('cell/' + ','.join(map(str, cell)) + ('/s' if sched else ''))
     kw = {'allow_upgrades': au, 'max_http_buffer_size': MAXB}
     if tr is not None:
         kw['transports'] = tr
-    sim = scen.make_sim(srv, server_kwargs=kw, ws_close_mode=conv)
+    if sched:
+        rec.count('cells_under_random_schedules')
+    sim = scen.make_sim(srv, server_kwargs=kw, ws_close_mode=conv,
+                        policy='random' if sched else 'fifo', seed=sched,
+                        yield_prob=0.3 if sched else 0.0)
     R = hist.Runner(sim)
     desc = ('frames=(%r,%r) close=%s convention=%s concurrent=%s '
             'allow_upgrades=%r transports=%r server=%s' % (
@@ -114,6 +123,32 @@ def _run(rec, sim, R, V, f1, f2, cl, conc, au, tr, srv):
                 not any(e['ev'] == 'message' for e in sim.events):
             V('ws-open-not-working', 'websocket-only session does not carry '
               'messages both ways')
+            return
+        # a session opened on WebSocket refuses upgrade attempts too, without
+        # disturbing its socket
+        rec.count('second_upgrade_refused')
+        n0 = len(sim.events)
+        ws2, t2 = sim.upgrade_ws(s.h)
+        sim.quiesce()
+        ws2.send('2probe')
+        sim.quiesce()
+        ws2.send('5')
+        sim.quiesce()
+        R.send(s, 'json')
+        s.ws.send('4' + 'U9.2|t')
+        sim.quiesce()
+        if ws2.frames or any(e['ev'] == 'disconnect'
+                             for e in sim.events[n0:]) or \
+                not any(d['id'] == 'M0.2' and d['via'] == 'ws'
+                        for d in R.deliveries) or \
+                not any(e['ev'] == 'message' and e['data'] == 'U9.2|t'
+                        for e in sim.events[n0:]) or \
+                sim.transport_of(s.sid) != 'websocket':
+            V('established-socket-disturbed', 'upgrade attempt on a session '
+              'opened on WebSocket: second socket frames %r, events %r, '
+              'transport %r' % (ws2.texts(), [
+                  (e['ev'], e.get('reason')) for e in sim.events[n0:]],
+                  sim.transport_of(s.sid)))
         return
     s = R.open('polling')
     if not s.accepted:
@@ -293,6 +328,14 @@ def plan(tier, seed):
         base = [c for c in allc if c[3] == 0 and c[5] == 0 and c[6] == 0
                 and c[4] in (0, 4)]
         chosen = base + rng.sample(allc, 1500)
+    chosen = [tuple(c) for c in chosen]
+    # cells with concurrent activity on the threaded server again under
+    # seeded random cooperative schedules (with yields at signalling points)
+    extra = [c for c in chosen if c[7] == 0 and c[4] != 0 and c[6] == 0]
+    if tier != 'thorough':
+        extra = rng.sample(extra, min(len(extra), 300))
+    for k in range(1, 4 if tier == 'thorough' else 2):
+        chosen += [c + (seed * 100 + k,) for c in extra]
     rng.shuffle(chosen)
     n = 16
     return [{'cells': chosen[i::n], 'all': tier == 'thorough'}
